@@ -4,6 +4,11 @@ import json, os, sys
 HERE = os.path.dirname(os.path.dirname(os.path.abspath(__file__)))
 
 CLAIMED = {
+ "C16": dict(
+    technique="deterministic simulation: seeded operation histories stepped against a cache-free reference registry; 2-thread baton-scheduled runs checked for linearizability",
+    level="seeded exploration of register/resolve/convert histories (4 registry flavours, detector and converter faults) compared operation by operation with the statement as executable reference; a share of runs splits the history over two simulated threads under a seeded line-level schedule and requires linearizability w.r.t. the same reference",
+    note="reference = statement read literally (DESIGN 3.16); threaded mode limited to 6 operations and source-line pre-emption granularity; samples, does not enumerate",
+    ref="3.16"),
  "C04": dict(
     technique="deterministic simulation: seeded fault plans at converter/hook/input-protocol seams, containment oracle, virtual step clock watchdog",
     level="slice: error containment, body-not-entered and bounded termination under injected faults (leaf converter x 11 exception classes, transient faults, n-th call hook faults, n-th call input-protocol faults) across every API kind and wrapper; seeded exploration with fault-free control per plan, minimised fresh-interpreter replay",
